@@ -665,8 +665,8 @@ func (e *c14Env) signalBoom(x uint32) c14Res {
 
 // allEvents: every event frame (whatever its action) each connection received since the last call,
 // connection by connection, in arrival order
-func (e *c14Env) allEvents() []c14AnyEvent {
-	e.env.syncAll()
+func (e *c14Env) allEvents() ([]c14AnyEvent, bool) {
+	ok := e.env.syncAll()
 	var out []c14AnyEvent
 	for ci, c := range e.env.conns {
 		for _, m := range c.take() {
@@ -675,7 +675,7 @@ func (e *c14Env) allEvents() []c14AnyEvent {
 			}
 		}
 	}
-	return out
+	return out, ok
 }
 
 func c14AnyEventsTerm(evs []c14AnyEvent) string {
@@ -785,11 +785,28 @@ func c14RegistryScripts() [][]c14ROp {
 }
 
 func c14Registry(res *hx.Result, rng *hx.Rng, cf *hx.Cases, n int) {
+	wedged := 0 // sequences given up because a call got no answer within its deadline: the family stops after three
 	for i, sc := range c14RegistryScripts() {
-		c14RegistrySequence(res, rng, cf, i, sc)
+		if wedged < 3 && !c14RegistrySequence(res, rng, cf, i, sc) {
+			wedged++
+		}
 	}
-	for i := 0; i < n; i++ {
-		c14RegistrySequence(res, rng, cf, i, nil)
+	for i := 0; i < n && wedged < 3; i++ {
+		if !c14RegistrySequence(res, rng, cf, i, nil) {
+			wedged++
+		}
+	}
+}
+
+// c14Within runs a call that has no deadline of its own (generated proxy, implementor helpers) under one
+func c14Within(d time.Duration, f func() c14Res) (c14Res, bool) {
+	ch := make(chan c14Res, 1)
+	go func() { ch <- f() }()
+	select {
+	case r := <-ch:
+		return r, true
+	case <-time.After(d):
+		return c14Res{}, false
 	}
 }
 
@@ -799,11 +816,11 @@ func c14Registry(res *hx.Result, rng *hx.Rng, cf *hx.Cases, n int) {
 // under that user id); every accepted write must give each active registration for the property
 // exactly one event, carrying the written bytes; a rejected write, a read, a registration, an
 // unregistration, a signal emission must produce no property event.
-func c14RegistrySequence(res *hx.Result, rng *hx.Rng, cf *hx.Cases, i int, script []c14ROp) {
+func c14RegistrySequence(res *hx.Result, rng *hx.Rng, cf *hx.Cases, i int, script []c14ROp) bool {
 	e, err := c14NewEnv()
 	if err != nil {
 		res.Fail("harness-setup", err.Error())
-		return
+		return false
 	}
 	defer e.close()
 	var ops, descs []string
@@ -817,6 +834,14 @@ func c14RegistrySequence(res *hx.Result, rng *hx.Rng, cf *hx.Cases, i int, scrip
 		descs = append(descs, desc)
 	}
 	trace := func() string { return strings.Join(descs, " ; ") }
+	synced := true // false: a connection did not answer the barrier call within its deadline
+	events := func() []c14AnyEvent {
+		evs, ok := e.allEvents()
+		if !ok {
+			synced = false
+		}
+		return evs
+	}
 	fail := func(kind, detail string) {
 		if untyped {
 			res.FailKnown(kind, detail, "store_untyped")
@@ -893,6 +918,10 @@ func c14RegistrySequence(res *hx.Result, rng *hx.Rng, cf *hx.Cases, i int, scrip
 		nops = len(script)
 	}
 	for j := 0; j < nops; j++ {
+		if !synced {
+			res.Fail("call-unanswered", "a connection stopped answering (barrier call: no answer within 5 s) after: "+trace())
+			return false
+		}
 		var o c14ROp
 		if script != nil {
 			o = script[j]
@@ -915,15 +944,15 @@ func c14RegistrySequence(res *hx.Result, rng *hx.Rng, cf *hx.Cases, i int, scrip
 			}
 			key := fmt.Sprintf("%d/%d", o.conn, o.uid)
 			mid, ok, answered := e.rawReg(o.conn, 0, o.obj, o.sig, o.uid)
-			evs := e.allEvents()
+			evs := events()
 			r := c14Res{kind: 1}
 			if ok {
 				r.kind = 2
 			}
 			desc := fmt.Sprintf("registerEvent(conn %d, object %d, signal %d, user id %d)->%s", o.conn, o.obj, o.sig, o.uid, r)
 			if !answered {
-				res.Fail("call-unanswered", "registerEvent got no answer: "+trace())
-				continue
+				res.Fail("call-unanswered", desc+": no answer within 5 s, after: "+trace())
+				return false
 			}
 			record(fmt.Sprintf("SRegister %d %d %d %d %d", o.conn, o.obj, o.sig, o.uid, mid), r.sres(), evs, desc)
 			silent(desc, evs)
@@ -937,15 +966,15 @@ func c14RegistrySequence(res *hx.Result, rng *hx.Rng, cf *hx.Cases, i int, scrip
 			}
 		case 1:
 			_, ok, answered := e.rawReg(o.conn, 1, o.obj, o.sig, o.uid)
-			evs := e.allEvents()
+			evs := events()
 			r := c14Res{kind: 1}
 			if ok {
 				r.kind = 2
 			}
 			desc := fmt.Sprintf("unregisterEvent(conn %d, object %d, signal %d, user id %d)->%s", o.conn, o.obj, o.sig, o.uid, r)
 			if !answered {
-				res.Fail("call-unanswered", "unregisterEvent got no answer: "+trace())
-				continue
+				res.Fail("call-unanswered", desc+": no answer within 5 s, after: "+trace())
+				return false
 			}
 			record(fmt.Sprintf("SUnregister %d %d %d %d", o.conn, o.obj, o.sig, o.uid), r.sres(), evs, desc)
 			silent(desc, evs)
@@ -964,11 +993,11 @@ func c14RegistrySequence(res *hx.Result, rng *hx.Rng, cf *hx.Cases, i int, scrip
 			}
 		case 2:
 			g, ok := e.rawGet(o.conn, c14Delay)
-			evs := e.allEvents()
+			evs := events()
 			desc := fmt.Sprintf("get(delay)->%s", g)
 			if !ok {
-				res.Fail("call-unanswered", "property() got no answer: "+trace())
-				continue
+				res.Fail("call-unanswered", desc+": no answer within 5 s, after: "+trace())
+				return false
 			}
 			record("SOp (PGet "+c14Delay.term()+")", g.sres(), evs, desc)
 			if g.kind == 0 && g.val.sig != "i" {
@@ -981,11 +1010,11 @@ func c14RegistrySequence(res *hx.Result, rng *hx.Rng, cf *hx.Cases, i int, scrip
 			silent(desc, evs)
 		case 3:
 			r, ok := e.rawSet(o.conn, c14Delay, o.v)
-			evs := e.allEvents()
+			evs := events()
 			desc := fmt.Sprintf("set(delay, %s)->%s", o.v, r)
 			if !ok {
-				res.Fail("call-unanswered", "setProperty got no answer: "+trace())
-				continue
+				res.Fail("call-unanswered", desc+": no answer within 5 s, after: "+trace())
+				return false
 			}
 			record(fmt.Sprintf("SOp (PSet %s %s)", c14Delay.term(), o.v.term()), r.sres(), evs, desc)
 			if o.v.sig != "i" || len(o.v.data) != 4 || int32(binary.LittleEndian.Uint32(o.v.data)) < 0 {
@@ -993,12 +1022,17 @@ func c14RegistrySequence(res *hx.Result, rng *hx.Rng, cf *hx.Cases, i int, scrip
 			}
 			checkWrite(desc, r, o.v, evs)
 		case 4:
-			err := e.bomb.SetDelay(int32(o.x))
-			evs := e.allEvents()
-			r := c14Res{kind: 2}
-			if err != nil {
-				r.kind = 1
+			r, answered := c14Within(5*time.Second, func() c14Res {
+				if err := e.bomb.SetDelay(int32(o.x)); err != nil {
+					return c14Res{kind: 1}
+				}
+				return c14Res{kind: 2}
+			})
+			if !answered {
+				res.Fail("call-unanswered", fmt.Sprintf("SetDelay(%d): no answer within 5 s, after: %s", int32(o.x), trace()))
+				return false
 			}
+			evs := events()
 			desc := fmt.Sprintf("SetDelay(%d)->%s", int32(o.x), r)
 			record(fmt.Sprintf("SOp (PSet %s %s)", c14Delay.term(), c14Int(o.x).term()), r.sres(), evs, desc)
 			checkWrite(desc, r, c14Int(o.x), evs)
@@ -1009,8 +1043,12 @@ func c14RegistrySequence(res *hx.Result, rng *hx.Rng, cf *hx.Cases, i int, scrip
 				invalid = true
 			}
 		case 5:
-			r := e.update(o.x)
-			evs := e.allEvents()
+			r, answered := c14Within(5*time.Second, func() c14Res { return e.update(o.x) })
+			if !answered {
+				res.Fail("call-unanswered", fmt.Sprintf("UpdateDelay(%d): did not return within 5 s, after: %s", int32(o.x), trace()))
+				return false
+			}
+			evs := events()
 			desc := fmt.Sprintf("UpdateDelay(%d)->%s", int32(o.x), r)
 			record(fmt.Sprintf("SOp (PUpdate %d)", o.x), r.sres(), evs, desc)
 			checkWrite(desc, r, c14Int(o.x), evs)
@@ -1021,8 +1059,12 @@ func c14RegistrySequence(res *hx.Result, rng *hx.Rng, cf *hx.Cases, i int, scrip
 				invalid = true
 			}
 		case 6:
-			r := e.signalBoom(o.x)
-			evs := e.allEvents()
+			r, answered := c14Within(5*time.Second, func() c14Res { return e.signalBoom(o.x) })
+			if !answered {
+				res.Fail("call-unanswered", fmt.Sprintf("SignalBoom(%d): did not return within 5 s, after: %s", int32(o.x), trace()))
+				return false
+			}
+			evs := events()
 			desc := fmt.Sprintf("SignalBoom(%d)->%s", int32(o.x), r)
 			record(fmt.Sprintf("SSignal %d", o.x), r.sres(), evs, desc)
 			silent(desc, evs)
@@ -1041,6 +1083,7 @@ func c14RegistrySequence(res *hx.Result, rng *hx.Rng, cf *hx.Cases, i int, scrip
 		res.Sample(trace())
 	}
 	cf.Add("rcases", fmt.Sprintf("{| rc_ops := [\n    %s] |}", strings.Join(ops, ";\n    ")), fmt.Sprintf("registry sequence %d: %s", i, trace()))
+	return true
 }
 
 // ---------- concurrent histories ----------
